@@ -415,6 +415,9 @@ impl WmoWriter {
 
         header.write(writer)?;
 
+        // write_group_names packs the names back to back, one per group and in group order
+        let mut name_offset = 0usize;
+
         for group in groups {
             writer.write_u32_le(group.flags.bits())?;
 
@@ -426,9 +429,9 @@ impl WmoWriter {
             writer.write_f32_le(group.bounding_box.max.y)?;
             writer.write_f32_le(group.bounding_box.max.z)?;
 
-            // Write name offset in MOGN chunk
-            // This is a simplification - in a real implementation, you'd need to calculate actual offsets
-            writer.write_u32_le(0)?; // Placeholder
+            // Offset of this group's name in the MOGN chunk
+            writer.write_u32_le(name_offset as u32)?;
+            name_offset += group.name.len() + 1; // +1 for null terminator
         }
 
         Ok(())
